@@ -39,7 +39,11 @@ Record ostep := mkOstep {
   os_empty_after : bool        (* head_maintainer.heads is empty after the step                                       *)
 }.
 Record run := mkRun { r_init_empty : bool;      (* `not head_maintainer.heads` before the first step *)
-                      r_steps : list ostep }.
+                      r_steps : list ostep;
+                      r_cut : bool }.           (* the run is cut short by an exception raised in the LAST step of r_steps,
+                                                   whose body lists only what ran before the raise (a raise inside an
+                                                   autocommit section: the section with the statements that ran — its
+                                                   `finally:` still emits the begin) *)
 
 (* a context manager returned by begin_transaction in as_sql mode *)
 Definition with_ctx (d:dialect) (b:bt) (body:list rchunk) : list rchunk :=
@@ -77,6 +81,31 @@ Fixpoint steps_chunks (d:dialect) (mc:mcfg) (k:N) (empty:bool) (steps:list ostep
 Definition offline_chunks (d:dialect) (c:ocfg) (r:run) : list rchunk :=
   let mc := mkMcfg (effective_tddl d c) (c_per_mig c) (init_external true (c_conn_in_txn c)) true in
   with_ctx d (begin_transaction mc false false) (steps_chunks d mc 0 (r_init_empty r) (r_steps r)).
+
+(* ---- a run cut short by an exception.  begin_commit() is `emit_begin(); yield; emit_commit()` without try/finally:
+   when the exception passes through, the commit of the failing step's block and of the enclosing block is not emitted;
+   nothing after the failing step runs (in particular no DROP of the version table) *)
+Definition open_ctx (d:dialect) (b:bt) (body:list rchunk) : list rchunk :=
+  match b with
+  | BtBeginCommit => d_begin d ++ body
+  | _ => body
+  end.
+Definition step_core (d:dialect) (mc:mcfg) (k:N) (empty:bool) (s:ostep) : list rchunk :=
+  (if empty then exec_chunk d (RCreate k) else []) ++ [RRunning k]
+  ++ flat_map (item_chunks d (m_tddl mc) k) (os_body s) ++ concat (repeat (exec_chunk d (RVersion k)) (os_nver s)).
+Fixpoint steps_chunks_cut (d:dialect) (mc:mcfg) (k:N) (empty:bool) (steps:list ostep) : list rchunk :=
+  match steps with
+  | [] => []
+  | [s] => open_ctx d (begin_transaction mc false true) (step_core d mc k empty s)
+  | s :: r => step_chunks d mc k empty s ++ steps_chunks_cut d mc (N.succ k) (os_empty_after s) r
+  end.
+Definition offline_chunks_cut (d:dialect) (c:ocfg) (r:run) : list rchunk :=
+  let mc := mkMcfg (effective_tddl d c) (c_per_mig c) (init_external true (c_conn_in_txn c)) true in
+  open_ctx d (begin_transaction mc false false) (steps_chunks_cut d mc 0 (r_init_empty r) (r_steps r)).
+
+(* what the output buffer holds when the command returns or raises *)
+Definition offline_out (d:dialect) (c:ocfg) (r:run) : list rchunk :=
+  if r_cut r then offline_chunks_cut d c r else offline_chunks d c r.
 
 (* ------------------------------------------------------------------ chunks -> events *)
 
